@@ -447,6 +447,15 @@ func (h *Headers) UnmarshalFromRaw() error {
 		RawProtected:   h.RawProtected,
 		RawUnprotected: h.RawUnprotected,
 	}
+	// The buckets are a byte string and a map: the CBOR library would look
+	// through a self-described tag in front of either, and the tagged bytes
+	// would then be signed or emitted as they are.
+	if len(h.RawProtected) > 0 && h.RawProtected[0]>>5 != 2 {
+		return errors.New("cbor: invalid protected header: cbor: require bstr type")
+	}
+	if len(h.RawUnprotected) > 0 && h.RawUnprotected[0]>>5 != 5 {
+		return errors.New("cbor: invalid unprotected header: cbor: unprotected header: require map type")
+	}
 	if err := decMode.Unmarshal(h.RawProtected, &decoded.Protected); err != nil {
 		return fmt.Errorf("cbor: invalid protected header: %w", err)
 	}
